@@ -101,7 +101,25 @@ def run(ck):
         elif any(f[10 + len(ref):48]):
             ck.violation("bytes between the tag and offset 48 are not all zero", rep)
     object_reuse(ck, exe)
+    # the stream GREW after its size was measured: cmphmac is told the old size (progress information only) and given the tag of the
+    # old content - the tag of the stream as it is now differs, the comparison must fail
     r = ck.rng
+    gl = []
+    for j in range(30 if ck.tier == "thorough" else 12):
+        hm = j % 3
+        k = rnd_bytes(r, 16)
+        old_ = rnd_bytes(r, r.choice([1, 40, 64, 100, 256, 300]))
+        grown = old_ + rnd_bytes(r, r.choice([1, 16, 64, 200]))
+        gl.append("g%d cmph %d %d %s %s %s %d" % (j, HBUF, hm, k.hex(), grown.hex(), pyhmac.new(k, old_, PY[hm]).hexdigest(), len(old_)))
+    go = wv.run_lines([exe], gl, env=small_env(ck))
+    for l in gl:
+        cid = l.split()[0]
+        ck.cov["evaluations"] += 1
+        if go.get(cid) != "0":
+            ck.violation("the tag of the OLD content was accepted for a stream that grew after its size was measured (cmphmac told the old size): verdict %s" % go.get(cid),
+                         {"class": None, "case": l[:3000], "implementation": go.get(cid), "expected": "0", "driver_flags": ck.impl_flags, "replay": "echo 'x <case>' | harness/drv.cpp built with the flags above against /repo"})
+            break
+    ck.cov.setdefault("case_classes", {})["compare/stream-grew-after-size-was-measured"] = len(gl)
     parallel_purity(ck, exe, ["hmac %d %d %s %s" % (HBUF, i % 3, rnd_bytes(r, 16).hex(), wv.hexs(rnd_bytes(r, r.choice([1, 20, 55, 64, 100, 300])))) for i in range(24)],
                     "HMAC tags under different keys", iters=150, env=small_env(ck))
     if ck.tier == "thorough":
